@@ -36,13 +36,16 @@ func init() {
 
 func moneySrc() *SrcCfg {
 	c := c04Src("")
+	// portion vectors whose other clauses exceed one together with `remaining`: what they
+	// mean is not specified, but no posting of a successful execution may be non-positive
+	c.Vecs = append(c.Vecs, PortVec{[]string{"remaining", "2/3", "2/3"}, 1}, PortVec{[]string{"3/4", "1/2", "remaining"}, 1})
 	return c
 }
 
 func moneyDst(kept bool) *DstCfg {
 	d := &DstCfg{Asset: "USD", Accts: ws(0, "x", "a"), VarAccts: ws(0, "$u"),
 		Caps:     cat(ws(0, "2"), ws(1, "-1", "0")),
-		Vecs:     []PortVec{{[]string{"1/2", "1/2"}, 0}, {[]string{"1/3", "remaining"}, 0}},
+		Vecs:     []PortVec{{[]string{"1/2", "1/2"}, 0}, {[]string{"1/3", "remaining"}, 0}, {[]string{"remaining", "2/3", "2/3"}, 1}, {[]string{"3/4", "1/2", "remaining"}, 1}},
 		NClauses: ws(0, "1"),
 		WKept:    1, WVar: 1, WInorder: 1, WAllot: 1}
 	if !kept {
